@@ -72,6 +72,10 @@ impl EventSource for Park {
         let cancel = co_cancel_data(&co);
         // delay drop the container here to hold the resource
         let _container = self.container.get_mut().take().unwrap();
+        // register the cancel data before the coroutine is published: once it is
+        // stored it may be resumed and park again, a registration made after
+        // that point would replace the one of the later park
+        cancel.set_co(self.wait_co.clone());
         // register the coroutine
         self.wait_co.store(co);
         // re-check the state, only clear once after resume
@@ -85,11 +89,13 @@ impl EventSource for Park {
             return;
         }
 
-        // register the cancel data
-        cancel.set_co(self.wait_co.clone());
-        // re-check the cancel status
+        // re-check the cancel status: the canceller may have looked at the slot
+        // before the coroutine was stored, wake it up ourselves then
         if cancel.is_canceled() {
-            unsafe { cancel.cancel() };
+            if let Some(mut co) = self.wait_co.take() {
+                crate::yield_now::set_co_para(&mut co, std::io::Error::other("Canceled"));
+                get_scheduler().schedule(co);
+            }
         }
     }
 }
